@@ -629,6 +629,26 @@ theorem good_incAllow {ok : Nat → Prop} {w w' : World} {t o s amt : Nat}
     (h : tokIncAllow w t o s amt = .ok w') : Good ok w w' :=
   good_of_eq (fun _ z => bal_tokIncAllow h _ z) (supply_tokIncAllow h)
 
+theorem good_decAllow {ok : Nat → Prop} {w w' : World} {t o s amt : Nat}
+    (h : tokDecAllow w t o s amt = .ok w') : Good ok w w' :=
+  good_of_eq (fun _ z => bal_tokDecAllow h _ z) (supply_tokDecAllow h)
+
+theorem good_burnFrom {ok : Nat → Prop} {w w' : World} {t sp o amt : Nat} (hsrc : ok o)
+    (h : tokBurnFrom w t sp o amt = .ok w') : Good ok w w' := by
+  have B := bal_tokBurnFrom h
+  have S := supply_tokBurnFrom h
+  obtain ⟨T, al, hT, _, _, hle0, _, _⟩ := tokBurnFrom_ok h
+  have hle : amt ≤ bal w (.token t) o := by simp [bal, hT, hle0]
+  constructor
+  · intro u hk
+    by_cases hu : u = t
+    · subst hu
+      exact tokSumOK_burn hle (fun z => by rw [B]; simp) (by rw [S, if_pos rfl]) hk
+    · exact tokSumOK_congr (fun z => by rw [B, if_neg (by simp [hu])]) (by rw [S, if_neg hu]) hk
+  · intro u x hx
+    have hxs : x ≠ o := fun e => hx (e ▸ hsrc)
+    rw [B, if_neg (fun hh => hxs hh.2)]
+
 /-- a freshly instantiated cw20 contract with no balances and no supply -/
 theorem good_create {ok : Nat → Prop} {w w' : World} {nl : Nat} {T : Token}
     (hfresh : w.tok nl = none) (hTb : ∀ z, T.bal z = 0)
@@ -917,6 +937,16 @@ theorem good_tokSend {name : Asset → String} {w : World} {t sender dst amt : N
         (good_routerReceive (by rw [s1.router]; exact hr) (by intro q; rw [s1.pair]; exact hpairs q) h2)
     · cases h
 
+theorem good_tokSendFrom {name : Asset → String} {w : World} {t sp o dst amt : Nat} {hk : Hook} {r : World × Out}
+    (ho : ok o) (hr : ok w.router) (hpairs : ∀ q, (w.pair q).isSome → ok q)
+    (h : tokSendFrom name w t sp o dst amt hk = .ok r) : Good ok w r.1 := by
+  obtain ⟨w', out⟩ := r
+  obtain ⟨w1, h1, ⟨hd, h2⟩ | ⟨_, _, _, h2⟩⟩ := tokSendFrom_ok h
+  · exact (good_transferFrom ho h1).trans (good_pairReceive (hpairs dst hd) h2)
+  · have s1 := (tokTransferFrom_same h1).1
+    exact (good_transferFrom ho h1).trans
+      (good_routerReceive (by rw [s1.router]; exact hr) (by intro q; rw [s1.pair]; exact hpairs q) h2)
+
 /-! factory -/
 
 theorem facFanOut1_tok {denom decimals : Nat} {w w' : World} {msgs msgs' : List (Nat × Nat × Nat)}
@@ -1031,11 +1061,14 @@ end handlers
 /-- the whole-transaction statement -/
 theorem good_exec {name : Asset → String} {w w' : World} {op : Op} {out : Out}
     (hf : FreshOK w op) (h : exec name w op = .ok (w', out)) :
-    Good (fun z => z = actorOf op ∨ (w.pair z).isSome ∨ z = w.router) w w' := by
-  have hr : (fun z => z = actorOf op ∨ (w.pair z).isSome ∨ z = w.router) w.router := Or.inr (Or.inr rfl)
-  have hpairs : ∀ q, (w.pair q).isSome → (fun z => z = actorOf op ∨ (w.pair z).isSome ∨ z = w.router) q :=
+    Good (fun z => (z = actorOf op ∨ z ∈ ownersOf op) ∨ (w.pair z).isSome ∨ z = w.router) w w' := by
+  have hr : (fun z => (z = actorOf op ∨ z ∈ ownersOf op) ∨ (w.pair z).isSome ∨ z = w.router) w.router :=
+    Or.inr (Or.inr rfl)
+  have hpairs : ∀ q, (w.pair q).isSome →
+      (fun z => (z = actorOf op ∨ z ∈ ownersOf op) ∨ (w.pair z).isSome ∨ z = w.router) q :=
     fun q hq => Or.inr (Or.inl hq)
-  have hact : (fun z => z = actorOf op ∨ (w.pair z).isSome ∨ z = w.router) (actorOf op) := Or.inl rfl
+  have hact : (fun z => (z = actorOf op ∨ z ∈ ownersOf op) ∨ (w.pair z).isSome ∨ z = w.router) (actorOf op) :=
+    Or.inl (Or.inl rfl)
   cases op with
   | bankSend s d cs =>
     simp only [exec, bind_ok_iff, pure_ok_iff, Prod.mk.injEq] at h
@@ -1072,6 +1105,21 @@ theorem good_exec {name : Asset → String} {w w' : World} {op : Op} {out : Out}
     simp only [exec, bind_ok_iff, pure_ok_iff, Prod.mk.injEq] at h
     obtain ⟨w1, h1, rfl, _⟩ := h
     exact good_facExec (fun a0 a1 req c ld np nl e => (hf s f a0 a1 req c ld np nl (by rw [e])).2.1) h1
+  | tokTransferFrom t sp o d a =>
+    simp only [exec, bind_ok_iff, pure_ok_iff, Prod.mk.injEq] at h
+    obtain ⟨w1, h1, rfl, _⟩ := h
+    exact good_transferFrom (Or.inl (Or.inr (by simp [ownersOf]))) h1
+  | tokSendFrom t sp o d a hk =>
+    simp only [exec] at h
+    exact good_tokSendFrom (Or.inl (Or.inr (by simp [ownersOf]))) hr hpairs h
+  | tokBurnFrom t sp o a =>
+    simp only [exec, bind_ok_iff, pure_ok_iff, Prod.mk.injEq] at h
+    obtain ⟨w1, h1, rfl, _⟩ := h
+    exact good_burnFrom (Or.inl (Or.inr (by simp [ownersOf]))) h1
+  | tokDecAllow t o sp a =>
+    simp only [exec, bind_ok_iff, pure_ok_iff, Prod.mk.injEq] at h
+    obtain ⟨w1, h1, rfl, _⟩ := h
+    exact good_decAllow h1
 
 /-! ### C20 / C05W: the exported statements -/
 
@@ -1085,16 +1133,76 @@ theorem tokSumOK_step {name : Asset → String} {w w' : World} {op : Op} {out : 
 
 theorem reserved_unit_unspendable {name : Asset → String} {w w' : World} {op : Op} {out : Out} {p : Nat} {P : PairSt}
     (_hP : w.pair p = some P) (hlpp : (w.pair P.lp).isNone) (hlr : P.lp ≠ w.router)
-    (_hnoallow : ∀ T, w.tok P.lp = some T → ∀ s, T.allow P.lp s = none)
+    (hnoallow : ∀ T, w.tok P.lp = some T → ∀ s, T.allow P.lp s = none)
     (hact : actorOf op ≠ P.lp) (hf : FreshOK w op)
     (h : exec name w op = .ok (w', out)) :
     bal w (.token P.lp) P.lp ≤ bal w' (.token P.lp) P.lp := by
-  refine (good_exec hf h).keep P.lp P.lp ?_
-  rintro (e | e | e)
-  · exact hact e.symm
-  · rw [Option.isNone_iff_eq_none] at hlpp
-    rw [hlpp] at e
-    cases e
-  · exact hlr e
+  have hnp : ¬ (w.pair P.lp).isSome := by
+    rw [Option.isNone_iff_eq_none] at hlpp
+    rw [hlpp]; simp
+  -- a `…From` operation on the LP token itself with the LP token address as owner is impossible (no allowance);
+  -- on any other token it does not move LP tokens
+  have key : ∀ {t sp d a : Nat} {w1 : World}, tokTransferFrom w t sp P.lp d a = .ok w1 →
+      t ≠ P.lp ∧ ∀ z, bal w1 (.token P.lp) z = bal w (.token P.lp) z := by
+    intro t sp d a w1 h1
+    have ht : t ≠ P.lp := by
+      rintro rfl
+      obtain ⟨T, al, hT, hal, _⟩ := tokTransferFrom_ok h1
+      have := hnoallow T hT sp
+      rw [hal] at this
+      cases this
+    refine ⟨ht, fun z => ?_⟩
+    rw [bal_tokTransferFrom h1, if_neg (by simpa using Ne.symm ht)]
+  by_cases hown : P.lp ∈ ownersOf op
+  · cases op with
+    | tokTransferFrom t sp o d a =>
+      simp only [ownersOf, List.mem_singleton] at hown
+      subst hown
+      simp only [exec, bind_ok_iff, pure_ok_iff, Prod.mk.injEq] at h
+      obtain ⟨w1, h1, rfl, _⟩ := h
+      rw [(key h1).2]
+    | tokBurnFrom t sp o a =>
+      simp only [ownersOf, List.mem_singleton] at hown
+      subst hown
+      simp only [exec, bind_ok_iff, pure_ok_iff, Prod.mk.injEq] at h
+      obtain ⟨w1, h1, rfl, _⟩ := h
+      have ht : t ≠ P.lp := by
+        rintro rfl
+        obtain ⟨T, al, hT, hal, _⟩ := tokBurnFrom_ok h1
+        have := hnoallow T hT sp
+        rw [hal] at this
+        cases this
+      rw [bal_tokBurnFrom h1, if_neg (fun e => ht (by simpa using e.1.symm))]
+    | tokSendFrom t sp o d a hk =>
+      simp only [ownersOf, List.mem_singleton] at hown
+      subst hown
+      simp only [exec] at h
+      obtain ⟨w1, h1, h2⟩ := tokSendFrom_ok h
+      have s1 := (tokTransferFrom_same h1).1
+      rw [← (key h1).2]
+      have g : Good (fun z => (w.pair z).isSome ∨ z = w.router) w1 w' := by
+        rcases h2 with ⟨hd, h2⟩ | ⟨_, _, _, h2⟩
+        · exact good_pairReceive (ok := fun z => (w.pair z).isSome ∨ z = w.router) (Or.inl hd) h2
+        · exact good_routerReceive (ok := fun z => (w.pair z).isSome ∨ z = w.router)
+            (by rw [s1.router]; exact Or.inr rfl) (by intro q; rw [s1.pair]; exact Or.inl) h2
+      refine g.keep P.lp P.lp ?_
+      rintro (e | e)
+      · exact hnp e
+      · exact hlr e
+    | bankSend s d cs => simp [ownersOf] at hown
+    | tokTransfer t s d a => simp [ownersOf] at hown
+    | tokSend t s d a hk => simp [ownersOf] at hown
+    | tokIncAllow t o s a => simp [ownersOf] at hown
+    | tokBurn t s a => simp [ownersOf] at hown
+    | pair s p f m => simp [ownersOf] at hown
+    | router s f m => simp [ownersOf] at hown
+    | factory s f m => simp [ownersOf] at hown
+    | tokDecAllow t o s a => simp [ownersOf] at hown
+  · refine (good_exec hf h).keep P.lp P.lp ?_
+    rintro ((e | e) | e | e)
+    · exact hact e.symm
+    · exact hown e
+    · exact hnp e
+    · exact hlr e
 
 end Halo.Liquidity
